@@ -8,9 +8,10 @@ what="${1:-plain}"
 export GOFLAGS=-mod=mod GOPROXY=off GOSUMDB=off GOTOOLCHAIN=local CGO_ENABLED=1
 V=/verif
 REPO="${VERIF_REPO:-/repo}"
+SIM="${VERIF_SIM:-$V/sim}"   # development copy of the simulator sources (default: the committed ones)
 fail() { echo "build: $*" >&2; exit 2; }
 [ -x $V/bin/rewrite ] || (cd $V/tools && go build -o $V/bin/rewrite ./cmd/rewrite) || fail "cannot build rewriter"
-H=$( (cd "$REPO" && for f in $(ls *.go | grep -v _test.go) go.mod; do echo "$f"; cat "$f"; done; cd $V/sim && find . -name '*.go' -o -name go.mod | sort | xargs cat; cat $V/tools/cmd/rewrite/main.go) | sha256sum | cut -c1-20)
+H=$( (cd "$REPO" && for f in $(ls *.go | grep -v _test.go) go.mod; do echo "$f"; cat "$f"; done; cd $SIM && find . -name '*.go' -o -name go.mod | sort | xargs cat; cat $V/tools/cmd/rewrite/main.go) | sha256sum | cut -c1-20)
 OUT=$V/.cache/bin/$H
 need_plain=0; need_race=0
 need_real=0
@@ -23,9 +24,9 @@ if [ $need_real = 1 ]; then
   S=/dev/shm/verif-build-real-$H-$$
   rm -rf $S; mkdir -p $S/moss $OUT || fail "mkdir"
   (cd "$REPO" && for f in *.go go.mod go.sum; do case $f in *_test.go) ;; *) cp $f $S/moss/ ;; esac; done) || fail "copy"
-  sed "s#=> /dev/shm/verif-dev/moss#=> $S/moss#" $V/sim/go.mod > $S/go.mod
-  cp $V/sim/go.sum $S/go.sum
-  (cd $V/sim && go build -modfile=$S/go.mod -o $OUT/mosssim-real ./cmd/mosssim) >&2 || { rm -rf $S; fail "go build (real) failed"; }
+  sed "s#=> /dev/shm/verif-dev/moss#=> $S/moss#" $SIM/go.mod > $S/go.mod
+  cp $SIM/go.sum $S/go.sum
+  (cd $SIM && go build -modfile=$S/go.mod -o $OUT/mosssim-real ./cmd/mosssim) >&2 || { rm -rf $S; fail "go build (real) failed"; }
   rm -rf $S
 fi
 if [ $need_plain = 1 ] || [ $need_race = 1 ]; then
@@ -35,14 +36,14 @@ if [ $need_plain = 1 ] || [ $need_race = 1 ]; then
   (cd "$REPO" && for f in *.go go.mod go.sum; do case $f in *_test.go) ;; *) cp $f $S/moss/ ;; esac; done) || fail "copy"
   sed -i 's/^go 1\.[0-9]*$/go 1.21/' $S/moss/go.mod
   (cd $S/moss && $V/bin/rewrite . > $S/rewrite.log 2>&1) || { cat $S/rewrite.log >&2; fail "rewrite failed"; }
-  sed "s#=> /dev/shm/verif-dev/moss#=> $S/moss#" $V/sim/go.mod > $S/go.mod
-  cp $V/sim/go.sum $S/go.sum
+  sed "s#=> /dev/shm/verif-dev/moss#=> $S/moss#" $SIM/go.mod > $S/go.mod
+  cp $SIM/go.sum $S/go.sum
   if [ $need_plain = 1 ]; then
-    (cd $V/sim && go build -modfile=$S/go.mod -o $OUT/mosssim.tmp ./cmd/mosssim) >&2 || fail "go build failed"
+    (cd $SIM && go build -modfile=$S/go.mod -o $OUT/mosssim.tmp ./cmd/mosssim) >&2 || fail "go build failed"
     mv $OUT/mosssim.tmp $OUT/mosssim
   fi
   if [ $need_race = 1 ]; then
-    (cd $V/sim && go build -race -modfile=$S/go.mod -o $OUT/mosssim-race.tmp ./cmd/mosssim) >&2 || fail "go build -race failed"
+    (cd $SIM && go build -race -modfile=$S/go.mod -o $OUT/mosssim-race.tmp ./cmd/mosssim) >&2 || fail "go build -race failed"
     mv $OUT/mosssim-race.tmp $OUT/mosssim-race
   fi
   cp $S/rewrite.log $OUT/rewrite.log
